@@ -588,15 +588,21 @@ def make_prog(kind, vers):
                 2: lambda h: (EXEC.append("outer"), step(h.fork("x").fork("y")))[1]}[vers.get("body", 0)]
         outer = task(name="c25_outer", namespace="verif", version="b%d" % vers.get("body", 0))(_named(body, "c25_outer"))
         return outer(H("wf"))
-    if kind == "par":
+    if kind in ("par", "par2"):
         la = T("c25_load_a", lambda h: (EXEC.append("a"), h)[1])
         lb = T("c25_load_b", lambda h: (EXEC.append("b"), h)[1])
         lc = T("c25_load_c", lambda h: (EXEC.append("c"), h)[1])
+        ld = T("c25_load_d", lambda h: (EXEC.append("d"), h)[1])
 
-        def main():
-            conn = H("wp")
-            return lc(merge_handles([la(conn), lb(conn)]))
-        m = task(name="c25_main", namespace="verif", version="m%s" % json.dumps(vers, sort_keys=True))(_named(main, "c25_main"))
+        if kind == "par":       # docs/source/values.md: two parallel writers, merge, one more writer
+            def main():
+                conn = H("wp")
+                return lc(merge_handles([la(conn), lb(conn)]))
+        else:                   # three parallel writers on one handle state, no merge
+            def main():
+                conn = H("wq")
+                return [la(conn), lb(conn), ld(conn)]
+        m = task(name="c25_main_" + kind, namespace="verif", version="m%s" % json.dumps(vers, sort_keys=True))(_named(main, "c25_main_" + kind))
         return m()
     raise ValueError(kind)
 
@@ -606,8 +612,12 @@ def _named(fn, name):
     return fn
 
 
+PAR_TASKS = {"par": ["c25_load_a", "c25_load_b", "c25_load_c"], "par2": ["c25_load_a", "c25_load_b", "c25_load_d"]}
+SHORT = {"c25_load_a": "a", "c25_load_b": "b", "c25_load_c": "c", "c25_load_d": "d"}
+
+
 def gen_prog_history(rng):
-    kind = rng.choice(["fork", "fork", "par"])
+    kind = rng.choice(["fork", "fork", "par", "par", "par2", "par2"])
     runs = rng.randrange(2, 6)
     hist, pool = [], []
     cur = {}
@@ -619,10 +629,11 @@ def gen_prog_history(rng):
                 k = rng.choice(["body", "body", "c25_step", "c25_step2"])
                 cur[k] = rng.choice([v for v in (0, 1, 2) if v != cur.get(k, 0)]) if k == "body" else 1 - cur.get(k, 0)
             else:
-                k = rng.choice(["c25_load_a", "c25_load_b", "c25_load_c"])
+                k = rng.choice(PAR_TASKS[kind])
                 cur[k] = 1 - cur.get(k, 0)
-        elif r < 0.85:
+        elif r < 0.8:
             cur = dict(rng.choice(pool))
+        # else: unchanged re-run
         pool.append(dict(cur))
         hist.append(dict(cur))
     return {"kind": kind, "runs": hist}
@@ -632,7 +643,65 @@ PROG_CORPUS = [
     {"kind": "fork", "runs": [{}, {"body": 1}, {}]},                      # explicit fork, edit, revert
     {"kind": "fork", "runs": [{"body": 2}, {"body": 1}, {"body": 2}]},    # two chained explicit forks
     {"kind": "par", "runs": [{}, {"c25_load_b": 1}, {}, {"c25_load_a": 1}]},
+    # parallel writers on one state: edit one branch, then re-run unchanged (the docs' load_a / load_b example)
+    {"kind": "par", "runs": [{}, {"c25_load_b": 1}, {"c25_load_b": 1}, {"c25_load_a": 1, "c25_load_b": 1}, {"c25_load_a": 1, "c25_load_b": 1}]},
+    {"kind": "par2", "runs": [{}, {"c25_load_b": 1}, {"c25_load_b": 1}]},
+    {"kind": "par2", "runs": [{}, {"c25_load_a": 1}, {"c25_load_a": 1}, {"c25_load_d": 1, "c25_load_a": 1}, {}]},
 ]
+
+
+def handles_in(value):
+    Handle = env()["H"].__mro__[1]
+    if isinstance(value, Handle):
+        return [value]
+    if isinstance(value, (list, tuple)):
+        return [h for v in value for h in handles_in(v)]
+    return []
+
+
+def prog_oracle(ctx, ph, runs):
+    """Parallel writers on one handle state (docs/source/values.md, "forked ... to limit the scope of rollbacks"): a
+    writer re-executes exactly when its own task changed w.r.t. what its branch of the external system holds (and the
+    writer after the merge also when a merged branch re-executed); every handle an execution returns is valid; an
+    unchanged re-run executes nothing."""
+    kind = ph["kind"]
+    if kind not in PAR_TASKS:
+        return "ok"
+    held, prev = {}, None
+    for n, (vers, r) in enumerate(zip(ph["runs"], runs)):
+        case = {"family": "program-" + kind, "history": {"kind": kind, "runs": ph["runs"][:n + 1]}, "run": n}
+        if r["err"]:
+            return "ok"     # reported by the caller
+        must = set()
+        branches = [t for t in PAR_TASKS[kind] if t != "c25_load_c"]
+        for t in branches:
+            if held.get(t) != vers.get(t, 0):
+                must.add(SHORT[t])
+        if kind == "par" and (must or held.get("c25_load_c") != vers.get("c25_load_c", 0)):
+            must.add("c")
+        ran = sorted(r["ran"])
+        if not must <= set(ran):
+            ctx.violation("C25-stale-branch-state-replayed", "a parallel writer whose task changed (or the writer after the merge of a "
+                          "re-executed branch) was not re-executed", case=case, expected=sorted(must), actual=ran, kind="history")
+            return "violation"
+        if r["valid"] is not None and not all(r["valid"]):
+            ctx.violation("C25-returned-handle-state-invalid", "an execution returned a handle state that the backend holds invalid "
+                          "(a sibling fork was rolled back together with the edited branch)", case=case,
+                          expected=[True] * len(r["valid"]), actual=r["valid"], kind="history")
+            return "violation"
+        if prev == vers and ran:
+            ctx.violation("C25-unchanged-rerun-executes", "re-running the unchanged workflow executed tasks", case=case, expected=[],
+                          actual=ran, kind="history")
+            return "violation"
+        if sorted(must) != ran:
+            ctx.violation("C25-sibling-fork-re-executed", "a parallel writer on a sibling fork of the same handle state re-executed although "
+                          "neither its task nor its input state changed (rollback not confined to the fork)", case=case,
+                          expected=sorted(must), actual=ran, kind="history")
+            return "violation"
+        for t in PAR_TASKS[kind]:
+            held[t] = vers.get(t, 0)
+        prev = vers
+    return "ok"
 
 
 def run_prog_history(ctx, ph):
@@ -649,12 +718,15 @@ def run_prog_history(ctx, ph):
             except Exception as ex:  # noqa: BLE001
                 final, err = None, "!" + type(ex).__name__
                 e["backend"].session.rollback()
-            fv = None
+            valid = None
             if final is not None:
-                sess.note(final)
-                fv = bool(sess._orig["is_valid_handle"](final))
-                sess.answers.append((len(sess.ops), sess.ids.of(final), fv))
-            runs.append({"vers": vers, "ran": list(EXEC), "err": err, "final_valid": fv})
+                valid = []
+                for h in handles_in(final):
+                    sess.note(h)
+                    fv = bool(sess._orig["is_valid_handle"](h))
+                    valid.append(fv)
+                    sess.answers.append((len(sess.ops), sess.ids.of(h), fv))
+            runs.append({"vers": vers, "ran": list(EXEC), "err": err, "valid": valid})
     finally:
         sess.unspy()
     return sess, runs
@@ -722,6 +794,9 @@ def run(ctx):
                                       kind="history")
                         res = "violation"
                         break
+            if res != "violation":
+                r2 = prog_oracle(ctx, hist, extra)
+                res = r2 if r2 != "ok" else res
             ctx.case(key=json.dumps(hist, sort_keys=True), sample={"family": "program", "history": hist, "ran": [r["ran"] for r in extra]},
                      family="program-" + hist["kind"], outcome=res, executions=len(hist["runs"]))
 
@@ -754,6 +829,9 @@ def search(ctx):
         if kind == "chain" and res != "violation":
             r2 = chain_oracle(ctx, hist, extra)
             res = r2 if r2 != "ok" else res
+        if kind == "prog" and res != "violation":
+            r2 = prog_oracle(ctx, hist, extra)
+            res = r2 if r2 != "ok" else res
         ctx.case(key="search:" + json.dumps(hist, sort_keys=True), family="search-" + kind, outcome=res)
         if ctx.violations:
             break
@@ -782,6 +860,9 @@ def replay(ctx, case):
         sess, runs = run_prog_history(ctx, ph)
         rep = ctx.model("C25", sess.lines())
         res = sess.check(rep, ph)
+        if res != "violation":
+            r2 = prog_oracle(ctx, ph, runs)
+            res = r2 if r2 != "ok" else res
         for r in runs:
             print("  run", r)
         print("replay outcome:", res)
